@@ -192,6 +192,8 @@ class Interp(object):
         from . import api
         self.api = api
         self.record_reads = True
+        self.tag_returns = set()   # qualnames whose tuple results are tagged 'ret:<name>#i'
+        self.overrides = {}        # qualname -> closure(I, fr, bound, node) -> AV  (summary stubs)
 
     # ------------------------------------------------------------------ events
     def emit(self, kind, fr, node=None, **kw):
@@ -231,6 +233,9 @@ class Interp(object):
         return self.call_function(fi, args, state, None, None, self_obj=self_obj, is_entry=True)
 
     def call_function(self, fi, bound, state, caller_fr, node, self_obj=None, is_entry=False):
+        if fi.qualname in self.overrides and not is_entry:
+            self.emit("call", caller_fr, node, callee=fi.qualname, overridden=True)
+            return self.overrides[fi.qualname](self, caller_fr, bound, node), state, None
         if fi in self.stack or len(self.stack) > self.MAX_DEPTH:
             return self.unmodelled(caller_fr, node, "recursion or depth limit at %s" % fi.qualname), state, None
         self.stats["calls"] += 1
@@ -265,6 +270,9 @@ class Interp(object):
             exit_state = st if exit_state is None else join_states(exit_state, st)
         from . import idioms
         ret = idioms.post_call(self, fi, bound, ret)
+        if fi.qualname in self.tag_returns and ret.items is not None:
+            ret = ret.replace(items=tuple(
+                x.replace(tags=x.tags | frozenset(["ret:%s#%d" % (fi.name, i)])) for i, x in enumerate(ret.items)))
         # propagate heap and facts back to the caller
         newheap = dict(exit_state.heap)
         state.heap.clear()
@@ -742,6 +750,10 @@ class Interp(object):
 
         def upd(a, v=v, idx=idx):
             return self.elem_join(a, v, idx)
+        if base.kind == K_ARRAY:
+            tgt = self.api.subscript(self, fr, base, idx, target, quiet=True)
+            self.emit("store-shape", fr, st, target_shape=tgt.shape, value_shape=self.api.as_num(v).shape, base=base, value=v,
+                      index=idx)
         self.mutate(fr, base, st, how, upd, index=idx, value=v)
 
     def _rebind_container(self, fr, expr, nv, st, how):
